@@ -23,6 +23,31 @@ CHECKS = {
     ),
 }
 
+def _c(engine, technique, text, note, design, level=MC):
+    return dict(engine=engine, technique=technique, text=text, note=note, design=design, level=level)
+
+
+CHECKS.update({
+    "C01": _c("tlc-ws2d", "TLC exhaustive model check of the ws2d row machine (SmallRat/BigRat) + TLC trace validation of ws2d.py_func run on exact fractions and of the compiled float64 kernel",
+        "TLC proves, for every input of the small scopes (n 4..5 over pure-TLA+ rationals, n up to 6/8 with the BigInteger override), that the row-by-row LDL' machine of ws2d factorises the normal matrix, stays in bounds and returns the solution of (W + lam D'D) z = W y, with D'D derived from the definition of D. The implementation is bound to it by two trace legs decided by TLC: the Python source of ws2d executed on exact fractions, stepped row by row against the machine (identical, no tolerance), and the compiled kernel on float64 against the exact solve within the property's 1e-6.",
+        "Trusted: TLC, BigRat override (cross-checked against SmallRat in setup), CPython Fraction. Known finding C01-F1 (stiff extrapolation loses float64 accuracy) is reported, not raised.", "7/C01"),
+    "C03": _c("tlc-smooth", "TLC trace validation against spec/Smooth.tla: exact PLS / expectile iterates (Ws2dFn!Solve over BigRat), per-pass envelope decisions logged from the kernel source and validated",
+        "Every recorded call of ws2dgu / ws2dpgu / whits(s=, sg=, p=) is decided by TLC: the band must be the half-even rounding of the exact curve (tie band = C01's float accuracy); for the asymmetric kernel TLC re-runs the reweighting iteration exactly, pass by pass, checks every logged envelope weight against the exact previous iterate, the pass limit and the convergence rule. The solver used by the contract is itself model-checked against the normal equations (C01).",
+        "Sampled inputs (not exhaustive); curves leaving int16 are SKIPped as out of claim; hints only resolve envelope ties.", "7/C03"),
+    "C11": _c("tlc-dekad", "TLC exhaustive model check of spec/Dekad.tla over all 359,964 dekads + TLC validation of a day-by-day scan of the real class + TLC-generated operation sequences replayed on real objects",
+        "The calendar is re-derived in TLA+ from the leap rule; TLC checks abutment, cover, month sums, inverse constructions and that every day of each dekad maps back (a partition of all 3,652,059 days) for every dekad. The real Dekad class is observed on every day of the tier's range (date and 23:59:59.999999), run-length encoded, and every run with all its public fields is decided by TLC; the .dekad accessor is compared element-wise; TLC-simulated behaviours of the operation machine (add/sub/diff/compare/hash/round-trips) are replayed on real objects step by step.",
+        "quick scans one 400-year cycle plus both range ends, thorough every day; end_date of 9999-12-d3 is outside datetime and outside the claim.", "7/C11"),
+    "C18": _c("tlc-runs", "TLC exhaustive model check of spec/Runs.tla (lroo loop, croo pipeline) + TLC validation of kernel/accessor calls (exhaustive bulk scope + long structured runs)",
+        "TLC checks the lroo loop (with an output-width parameter) and the croo xarray pipeline against the declarative longest/current run for all binary series up to length 12/16 and all stored orders up to 5/6; the same series are executed on the compiled kernel (bulk), the accessors, runs up to 600 at every position, competing runs around 255..257 and random permutations, each call decided by TLC.",
+        "Trusted: TLC, JSON trace writer. Input cubes are uint8 0/1.", "7/C18"),
+    "C19": _c("tlc-iteragg", "TLC exhaustive model check of the generator machine (spec/IterAgg.tla) + step-by-step TLC trace validation of every next() of the real generator",
+        "The generator (label lookup incl. get_indexer = -1, loop, break, yield) is a TLA+ state machine checked against the declarative window contract for every axis length up to 8/12, n, begin/end on and off the axis and lookup method. Real executions are logged as one event per next() (yield with attrs, stamp and values / end / raise) and TLC validates each trace step by step, values compared as exact rationals.",
+        "Exhaustive to axis length 4 (quick) / 7 (thorough) on the real code, sampled to 12. nearest-ties are left nondeterministic.", "7/C19"),
+    "C20": _c("tlc-tinterp", "TLC model check of the cursor loops (spec/Tinterp.tla) + TLC trace validation with exact daily Whittaker solve and period means",
+        "TLC checks the kernel's scatter and run-length loops against their declarative definitions (cursors in bounds) on all templates/labelings of a small scope, and decides every recorded call of ops.tinterpolate / whitint: the daily curve is solved exactly (float 1e-5 lambda, weights on marks), verified against the normal equations, averaged per label run and compared with the rounded output; inputs unmodified; constant / linear-in-day data up to daily length 4000 by an affine certificate.",
+        "Exact solves limited to daily length 100 (quick) / 400 (thorough); period means outside int16 are SKIPped.", "7/C20"),
+})
+
 NOT_YET = "check not built yet in this round (see DESIGN.md section 11 for the build order)"
 
 
